@@ -76,5 +76,43 @@ int main(int argc, char** argv)
             }
         }
     }
+    // trailing defaults are dropped with their record: they must not surface in what is written next without a
+    // start_record (DeckKeyword::write_TITLE writes the title words directly after start_keyword)
+    for (int pending = 1; pending <= 4; ++pending) {
+        std::ostringstream os;
+        {
+            Opm::DeckOutput out(os, 10);
+            out.start_keyword("EQLDIMS", false);
+            out.start_record();
+            out.write(2);
+            for (int i = 0; i < pending; ++i) out.stash_default();
+            out.end_record();
+            out.end_keyword(false);
+            out.start_keyword("TITLE", false);
+            out.write_string("  ");
+            out.write(std::string("My"));
+            out.endl();
+        }
+        if (os.str().find('*') != std::string::npos) {
+            w << "a record ending with " << pending << " defaulted item(s), followed by a TITLE: the dropped defaults surface as \"" << pending << "*\" in the title line";
+            return r.verdict(false, w.str());
+        }
+    }
+    // string values are written verbatim between quotes (trailing / leading / interior blanks, wildcards, slashes)
+    for (const std::string v : {"PROD1", "PROD1   ", " ", "  LEFT", "A B", "P*", "dir/file.inc", ""}) {
+        std::ostringstream os;
+        {
+            Opm::DeckOutput out(os, 10);
+            out.start_keyword("KW", false);
+            out.start_record();
+            out.write(v);
+            out.end_record();
+            out.end_keyword(false);
+        }
+        if (os.str().find("'" + v + "'") == std::string::npos) {
+            w << "the string \"" << v << "\" is not written verbatim between quotes: " << os.str().substr(0, 60);
+            return r.verdict(false, w.str());
+        }
+    }
     return r.verdict(true, "default run-length encoding matches on every operation sequence of length <= 7 (bounded native search)");
 }
